@@ -410,6 +410,18 @@ impl Workload {
             .into_iter()
             .filter(|c| c.applies_to(m.fam))
             .collect();
+            let same: Vec<HandleId> = sim
+                .model
+                .iter()
+                .filter(|(g, x)| **g != h && x.fam == m.fam)
+                .map(|(g, _)| *g)
+                .collect();
+            if !same.is_empty() && r.pct(15) {
+                return Step::CloneFrom {
+                    src: h,
+                    dst: *r.pick(&same),
+                };
+            }
             return match r.below(10) {
                 0..=2 if room && m.fam.has_take() => Step::Take {
                     src: h,
